@@ -37,6 +37,11 @@
 (*   Patch_AbsoluteOffset      length patched at mem[lenPos] (ignoring rd) *)
 (*   Len_IncludesTrailer       length measured after the trailer           *)
 (*   Checksum_BeforePatch      checksum computed before the length patch   *)
+(*   Scratch_KeptOnError       the body is staged in a pooled buffer that  *)
+(*                             a REFUSED encode does not empty: the next   *)
+(*                             frame carries the leftover in front of its  *)
+(*                             body (the universe holds a frame whose body *)
+(*                             is refused after it wrote something)        *)
 (* Registry x frames (RegistryOps = TRUE): RemoveSvc / RestoreSvc of the   *)
 (* checksum services; a frame encoded while its service is absent keeps    *)
 (* the caller's checksum (what the code does; C05 assumes the start-up     *)
@@ -50,8 +55,9 @@ Msgs == ndJsonDeserialize(IOEnv.VERIF_VALUES)      \* sequence of [t, v]
 MsgIds == 1..Len(Msgs)
 Dev(d) == d \in Deviations
 
-VARIABLES mem, rd, obj, reg, frames, q, lead, nops, hist, last
-vars == <<mem, rd, obj, reg, frames, q, lead, nops, hist, last>>
+VARIABLES mem, rd, obj, reg, frames, q, lead, nops, hist, last,
+          scratch     \* what a pooled staging buffer of the frame encoders holds between calls (always empty in the faithful model)
+vars == <<mem, rd, obj, reg, frames, q, lead, nops, hist, last, scratch>>
 
 Unread == Drop(mem, rd)
 
@@ -63,6 +69,7 @@ Init ==
   /\ q = <<>> /\ lead = 0   \* ghost: channel view of the unread region (as in TraceWire)
   /\ nops = 0 /\ hist = <<>>
   /\ last = [op |-> "init"]
+  /\ scratch = <<>>
 
 ---------------------------------------------------------------------------
 (* The six steps of a length-computing frame encoder, as transformers of a *)
@@ -76,7 +83,7 @@ StepBody(T, s) ==
   LET f == BodyField(T)
       bv == s.v[f.name]
       r == IF IsNil(bv) THEN [ok |-> TRUE, bytes |-> <<>>, val |-> NilV] ELSE EncMsg(bv["_t"], bv)
-  IN [s EXCEPT !.ok = r.ok, !.mem = @ \o r.bytes, !.bodystart = URLen(s), !.v = [@ EXCEPT ![f.name] = r.val]]
+  IN [s EXCEPT !.ok = r.ok, !.mem = @ \o s.pre \o r.bytes, !.bodystart = URLen(s), !.v = [@ EXCEPT ![f.name] = r.val], !.staged = s.pre \o r.bytes]
 StepPatch(T, s) ==
   LET n == Digits(URLen(s) - s.bodystart + (IF Dev("Len_IncludesTrailer") THEN TrailerLen(T) ELSE 0), 4)
       d == Ord(EndianOf(T), n)
@@ -91,8 +98,10 @@ StepChecksum(T, s, registry) ==
 StepTrailer(T, s) ==
   IF ~HasKind(T, "checksum") THEN s ELSE [s EXCEPT !.mem = @ \o Ord(EndianOf(T), s.v[CsumName(T)])]
 
-FrameEncode(T, v, m0, r0, registry) ==
-  LET s0 == [mem |-> m0, rd |-> r0, v |-> v, ok |-> TRUE, entry |-> 0, lenpos |-> 0, bodystart |-> 0]
+(* pre: what the staging buffer still held when the call began (deviation Scratch_KeptOnError: the body is staged in *)
+(* a pooled buffer that the error path returns to the pool without emptying it)                                     *)
+FrameEncode(T, v, m0, r0, registry, pre) ==
+  LET s0 == [mem |-> m0, rd |-> r0, v |-> v, ok |-> TRUE, entry |-> 0, lenpos |-> 0, bodystart |-> 0, pre |-> pre, staged |-> <<>>]
       s1 == StepHeader(T, s0)
       s2 == StepPlaceholder(T, s1)
       s3 == StepBody(T, s2)
@@ -100,9 +109,9 @@ FrameEncode(T, v, m0, r0, registry) ==
   IN IF s3.ok THEN StepTrailer(T, s4) ELSE s3
 
 (* any message: frames with a computed length take the six steps, everything else is one append *)
-EncodeOf(T, v, m0, r0, registry) ==
-  IF T \in FrameTypes THEN FrameEncode(T, v, m0, r0, registry)
-  ELSE LET E == EncMsg(T, v) IN [mem |-> m0 \o E.bytes, rd |-> r0, v |-> E.val, ok |-> E.ok]
+EncodeOf(T, v, m0, r0, registry, pre) ==
+  IF T \in FrameTypes THEN FrameEncode(T, v, m0, r0, registry, pre)
+  ELSE LET E == EncMsg(T, v) IN [mem |-> m0 \o E.bytes, rd |-> r0, v |-> E.val, ok |-> E.ok, staged |-> <<>>]
 
 ---------------------------------------------------------------------------
 QLen == LET RECURSIVE S(_) S(i) == IF i = 0 THEN 0 ELSE Len(q[i].bytes) + S(i - 1) IN S(Len(q))
@@ -112,9 +121,10 @@ Log(rec) == /\ hist' = Append(hist, rec) /\ nops' = nops + 1 /\ last' = rec
 Encode(m) ==
   /\ nops < MaxOps
   /\ LET T == Msgs[m].t
-         s == EncodeOf(T, obj[m], mem, rd, reg)
+         s == EncodeOf(T, obj[m], mem, rd, reg, IF Dev("Scratch_KeptOnError") THEN scratch ELSE <<>>)
          app == Drop(s.mem, Len(mem))
      IN /\ mem' = s.mem /\ rd' = s.rd
+        /\ scratch' = IF Dev("Scratch_KeptOnError") /\ T \in FrameTypes /\ ~s.ok THEN s.staged ELSE <<>>
         /\ obj' = [obj EXCEPT ![m] = s.v]
         /\ frames' = IF s.ok THEN Append(frames, [s |-> Len(mem), e |-> Len(s.mem), t |-> T, pinned |-> ExpectedEnc(T, obj[m], reg).bytes,
                                                    summed |-> (T \in CsumTypes /\ ChecksumAlg(T) \in reg)]) ELSE frames
@@ -132,27 +142,27 @@ Decode(T) ==
      /\ IF lead = 0 /\ Len(q) > 0 /\ D.used = Len(q[1].bytes) THEN q' = Tail(q) /\ UNCHANGED lead
         ELSE q' = <<>> /\ lead' = Len(Unread) - D.used
      /\ Log([op |-> "decode", t |-> T, res |-> "ok", post |-> Drop(mem, rd + D.used), vpost |-> D.val, used |-> D.used])
-  /\ UNCHANGED <<mem, obj, reg, frames>>
+  /\ UNCHANGED <<mem, obj, reg, frames, scratch>>
 
 NextK(k) ==
   /\ nops < MaxOps /\ k > 0 /\ k <= Len(Unread)
   /\ rd' = rd + k
   /\ IF k <= lead THEN lead' = lead - k /\ UNCHANGED q ELSE q' = <<>> /\ lead' = Len(Unread) - k
   /\ Log([op |-> "next", k |-> k, post |-> Drop(mem, rd + k)])
-  /\ UNCHANGED <<mem, obj, reg, frames>>
+  /\ UNCHANGED <<mem, obj, reg, frames, scratch>>
 
 Reset ==
   /\ nops < MaxOps /\ mem # <<>>
   /\ mem' = <<>> /\ rd' = 0 /\ frames' = <<>> /\ q' = <<>> /\ lead' = 0
   /\ Log([op |-> "reset", post |-> <<>>])
-  /\ UNCHANGED <<obj, reg>>
+  /\ UNCHANGED <<obj, reg, scratch>>
 
 WriteRaw ==
   /\ nops < MaxOps
   /\ mem' = mem \o JunkBytes
   /\ IF Len(q) = 0 THEN lead' = Len(Unread) + Len(JunkBytes) ELSE UNCHANGED lead
   /\ Log([op |-> "write", bytes |-> JunkBytes, post |-> Unread \o JunkBytes])
-  /\ UNCHANGED <<rd, obj, reg, frames, q>>
+  /\ UNCHANGED <<rd, obj, reg, frames, q, scratch>>
 
 (* the caller leaves junk in the self-computed fields *)
 SetStale(m) ==
@@ -163,7 +173,7 @@ SetStale(m) ==
      IN /\ obj[m] # v2
         /\ obj' = [obj EXCEPT ![m] = v2]
         /\ Log([op |-> "stale", m |-> m, t |-> T, vpost |-> v2])
-  /\ UNCHANGED <<mem, rd, reg, frames, q, lead>>
+  /\ UNCHANGED <<mem, rd, reg, frames, q, lead, scratch>>
 
 (* registry x frames: the application removes / re-registers a checksum service *)
 UsedAlgs == {ChecksumAlg(Msgs[m].t) : m \in {m \in MsgIds : Msgs[m].t \in CsumTypes}}
@@ -171,12 +181,12 @@ RemoveSvc(a) ==
   /\ nops < MaxOps /\ RegistryOps /\ a \in reg
   /\ reg' = reg \ {a}
   /\ Log([op |-> "regremove", alg |-> a])
-  /\ UNCHANGED <<mem, rd, obj, frames, q, lead>>
+  /\ UNCHANGED <<mem, rd, obj, frames, q, lead, scratch>>
 RestoreSvc(a) ==
   /\ nops < MaxOps /\ RegistryOps /\ a \notin reg
   /\ reg' = reg \cup {a}
   /\ Log([op |-> "regrestore", alg |-> a])
-  /\ UNCHANGED <<mem, rd, obj, frames, q, lead>>
+  /\ UNCHANGED <<mem, rd, obj, frames, q, lead, scratch>>
 
 Next == \/ \E m \in MsgIds : Encode(m) \/ SetStale(m)
         \/ \E a \in UsedAlgs : RemoveSvc(a) \/ RestoreSvc(a)
@@ -225,5 +235,5 @@ Ch == INSTANCE Channel WITH chan <- ChanView, got <- GotView
 ChannelRefinement == Ch!CSpec
 
 Export == nops = MaxOps => PrintT(<<"BEHAVIOUR", ToJson(hist)>>)
-ViewNoHist == <<mem, rd, obj, reg, frames, q, lead, nops, last>>
+ViewNoHist == <<mem, rd, obj, reg, frames, q, lead, nops, last, scratch>>
 =============================================================================
